@@ -32,7 +32,7 @@ MANIFEST = {
 
 SHAPES_Q = ["leftrec", "rightrec", "midrec", "ambig-binop", "ambig-concat", "nullable-chain", "nullable-start", "nullable-end",
             "two-nullables", "lr2", "dangling-else", "expr", "paren", "list-sep", "opt-list", "palindrome", "bounded-amb",
-            "lex-a-aa", "lex-prefix", "hidden-right"]
+            "lex-a-aa", "lex-prefix", "hidden-right", "lex-alt"]
 
 
 PRIO = {
